@@ -521,6 +521,7 @@ func C08(ctx *core.Ctx) {
 	ctx.Rule("C08.R2", "emitted identifiers resolve: op = operation name, prefix = the prefix helper of the scope, delimiter constant = «Delim» evaluated at generation time", 20)
 	ctx.Rule("C08.R3", "prefix helpers: every non-empty template is prefix text followed by «Delim», empty prefix gives the empty string", 4)
 	c08ListOrder(ctx, cc)
+	c08OptionPlumbing(ctx, cc)
 	c08TemplateHazard(ctx, cc)
 	ctx.Rule("C08.R4", "prefix variables are substituted in declaration order", 4)
 
